@@ -41,12 +41,12 @@ CHECKS = {
         technique="deterministic simulation (W-H handler world) with an adversary model: forged-handshake injection, justification oracle over the recorded history"),
     "C02": dict(
         cat="fault_enumeration", ref="DESIGN.md §5 C02",
-        text="Bounded fault enumeration plus seeded exploration on real handler sessions: for 6 base exchanges x datagram 0..9 every single-bit flip, every truncation length and a 1-byte insertion at every offset replaces the genuine datagram (198000 cases: all in the thorough tier, a fixed-stride sample in the quick tier); exploration adds header/body splices, misdelivery, re-masking for another node, spoofed sources, duplicates. Every message handed to an application must be carried by an unmodified datagram of the attributed peer's real handler addressed to this receiver, presented from the attributed address and decrypting (sender's logged key) to exactly that message; a panic in the receive path is a violation.",
+        text="Bounded fault enumeration plus seeded exploration on real handler sessions: for 6 base exchanges x datagram 0..9 every single-bit flip, every truncation length and a 1-byte insertion at every offset replaces the genuine datagram (198480 cases incl. auth-data growth with a patched size field: all in the thorough tier, a fixed-stride sample in the quick tier); exploration adds header/body splices, misdelivery, re-masking for another node, spoofed sources, duplicates. Every message handed to an application must be carried by an unmodified datagram of the attributed peer's real handler addressed to this receiver, presented from the attributed address and decrypting (sender's logged key) to exactly that message; a panic in the receive path is a violation.",
         note="Trusted: wire tap origin tags, key log hook H6. Attribution address = address the carrier was presented from (a relay that rewrites the source of a whole handshake is indistinguishable from a NAT).",
         technique="deterministic simulation (W-H handler world): enumerated single-datagram corruption + seeded corruption faults, carrier oracle over the inbound history"),
     "C03": dict(
         cat="fault_enumeration", ref="DESIGN.md §5 C03",
-        text="Bounded fault enumeration plus seeded exploration of replays: for 6 base exchanges every recorded handshake/WHOAREYOU datagram x every later point of the exchange (incl. after expiry and during a later exchange) x {original source, other address, towards another node} is re-injected (2016 cases, all executed in both tiers). Oracle: every recipient-side session creation or re-key (key log) consumes one fresh, unexpired, not yet consumed challenge whose data the delivered handshake's signature verifies against; every new handshake a node emits follows a WHOAREYOU from that address echoing the nonce of a datagram it sent there; at most one handshake per request (read from the handshake with the logged key); id-nonces never repeat.",
+        text="Bounded fault enumeration plus seeded exploration of replays: for 7 base exchanges every recorded handshake/WHOAREYOU datagram x every later point of the exchange (incl. after expiry and during a later exchange) x {original source, other address, towards another node} is re-injected (2352 cases, all executed in both tiers). Oracle: every recipient-side session creation or re-key (key log) consumes one fresh, unexpired, not yet consumed challenge whose data the delivered handshake's signature verifies against; every new handshake a node emits follows a WHOAREYOU from that address echoing the nonce of a datagram it sent there; at most one handshake per request (read from the handshake with the logged key); id-nonces never repeat.",
         note="Trusted: the crate's id-signature verification for attributing an accepted handshake to its challenge; challenge expiry = request_timeout after the WHOAREYOU or after the last handshake that may have re-armed it.",
         technique="deterministic simulation (W-H handler world): enumerated replay injection + seeded exploration, challenge-consumption ledger"),
     "C15": dict(
